@@ -58,6 +58,22 @@ CLAIMED = {
          "ImbMgr.tla is parameterised by a set of managers; TLC checks the ring invariants and the NonInterference action property (an action on one manager changes nothing of another, only the process-wide mirror) for two managers; on the real library three managers of random variants are interleaved in one thread and the trace is validated with Mgr = {0,1,2}; each manager's event sequence must equal the one it produces alone; 12 threads with own managers must reproduce their solo digests. The imb_get_errno() process-wide fallback is a recorded known finding.",
          "thread schedules are not controlled; known finding KF-1 listed in known_findings.json",
          "TLA+ model checking (non-interference) + trace validation of interleavings + thread differential", "5 C17"),
+ "C01": ("exploration",
+         "Reference-interpretation conformance: every catalogue cipher suite x direction x every message length 0..N x offsets x in-place x IV/counter classes is run on every variant and compared with an independent interpretation built from OpenSSL block primitives (harness/ref.c). The specification's contribution is the case partition and the multi-lane context in which the same suites are exercised by the model-validated schedule drivers (C04/C08); a TLA+ model cannot decide bit-exactness of a kernel.",
+         "no independent reference offline for ZUC/SNOW3G/KASUMI/SNOW-V/CBCS (cross-variant differential + published vectors only)",
+         "differential testing against a reference interpretation (exploration)", "5 C01"),
+ "C02": ("exploration",
+         "As C01 for digests and MACs: all HMACs (key lengths 1..150 through the ipad/opad helper), plain SHA/SM3, XCBC, CMAC 128/256/bit-length, GMAC, GHASH, Poly1305 and the twelve CRCs, permitted tag lengths, every message length 0..N incl. padding thresholds, hash-only and chained jobs, every variant, against OpenSSL digests and from-the-definition MAC/CRC code.",
+         "no independent reference offline for ZUC-EIA3, SNOW3G-UIA2, KASUMI-F9",
+         "differential testing against a reference interpretation (exploration)", "5 C02"),
+ "C03": ("exploration",
+         "AES-GCM (IV 1..64 bytes, AAD 0..600, tags 1..16), AES-CCM (nonce 7..13, AAD 0..46, even tags) and ChaCha20-Poly1305 in both directions, every plaintext length 0..N, every variant, against OpenSSL's AEADs; decrypt jobs must restore the plaintext and output the identical tag.",
+         "SNOW-V-AEAD, SM4-GCM, PON and DOCSIS+CRC32 have no independent reference here (cross-variant differential only)",
+         "differential testing against a reference interpretation (exploration)", "5 C03"),
+ "C11": ("exploration",
+         "Direct comparison of AES key expansion (both schedules), CMAC sub-keys and XCBC keys with from-the-standard implementations (computed S-box) for random and structured keys; HMAC-MD5 long-key refusal; indirectly every reference-checked job consumes helper output (ipad/opad incl. hashed long keys, GCM/GHASH tables, DES, SM4 schedules) and on alternate variants another variant's helpers prepare the keys (interchange).",
+         "KASUMI/SNOW3G schedules and 3GPP IV generators only through jobs without independent reference",
+         "differential testing against from-the-standard key material (exploration)", "5 C11"),
 }
 
 NA = {
